@@ -124,16 +124,13 @@ example : getArgsSel exLater none 0 { readouts := true } =
 theorem C01_flux_guard_transparent {α} (c : Content) (vars : Option (List (Name × Rat))) (t : Rat)
     (r : Except Err α) {fl : List (Name × Rat)} (h : getArgsSel c vars t fluxFlags = .ok fl) :
     guardFlux c vars t r = r := by
-  unfold guardFlux
-  cases r with
-  | error e => rfl
-  | ok a => simp [h]
+  simp [guardFlux, h]
 
 /-- **a flux the popped dict does not hold is a `KeyError` at every entry point that reads fluxes**
     (a surrogate stoichiometry key that is a data-set name or no output at all): no numbers -/
 theorem C01_unbound_flux_rejected {α} (c : Content) (vars : Option (List (Name × Rat))) (t : Rat)
-    (a : α) {e : Err} (h : getArgsSel c vars t fluxFlags = .error e) :
-    guardFlux c vars t (.ok a) = .error e := by
+    (r : Except Err α) {e : Err} (h : getArgsSel c vars t fluxFlags = .error e) :
+    guardFlux c vars t r = .error e := by
   simp [guardFlux, h]
 
 /-- the cross-audit's witness: the stoichiometry key of the surrogate is the data set `dat` -/
